@@ -49,7 +49,7 @@ fn tag_contract<const NAME: u8, const PATTERN: bool>() {
     kani::cover!(!unresolved, "bound reachable");
     std::mem::forget((tag, el_name, v));
 }
-macro_rules! tagh { ($($n:ident: $k:expr, $p:expr;)*) => { $(#[kani::proof] #[kani::unwind(4)] #[kani::stub(std::ptr::drop_in_place, no_drop)] #[kani::stub(core::ptr::drop_glue, no_glue)] #[kani::stub(alloc::fmt::format, fmt_marker)] fn $n() { tag_contract::<$k, $p>() })* } }
+macro_rules! tagh { ($($n:ident: $k:expr, $p:expr;)*) => { $(#[kani::proof] #[kani::unwind(4)] #[kani::stub(std::ptr::drop_in_place, no_drop)] #[kani::stub(core::ptr::drop_glue, no_glue)] #[kani::stub(std::vec::Vec::extend_from_slice, extend_from_slice_model)] #[kani::stub(alloc::fmt::format, fmt_marker)] fn $n() { tag_contract::<$k, $p>() })* } }
 tagh! {
     tag_div: 0, false; tag_svg: 1, false; tag_fragment: 2, false; tag_keepalive: 3, false; tag_foo_comp: 4, false;
     tag_xel_nopattern: 5, false; tag_xel_pattern: 5, true; tag_lower_unknown: 6, false; tag_upper_div: 7, false; tag_a: 8, false;
@@ -58,7 +58,7 @@ tagh! {
 
 // `<Fragment>` written by the user is not a component, whatever was imported before (C02: Fragment children are its
 // written children, not slots; C10: independent of earlier code).  Isolated because the pinned code fails it.
-#[kani::proof] #[kani::unwind(8)] #[kani::stub(std::ptr::drop_in_place, no_drop)] #[kani::stub(core::ptr::drop_glue, no_glue)] #[kani::stub(alloc::fmt::format, fmt_marker)]
+#[kani::proof] #[kani::unwind(8)] #[kani::stub(std::ptr::drop_in_place, no_drop)] #[kani::stub(core::ptr::drop_glue, no_glue)] #[kani::stub(std::vec::Vec::extend_from_slice, extend_from_slice_model)] #[kani::stub(alloc::fmt::format, fmt_marker)]
 fn tag_fragment_not_component() {
     let mut v = visitor(any_options());
     let frag_before: bool = kani::any();
@@ -81,11 +81,11 @@ fn tag_frame<const NAME: u8>() {
     assert!(v1.is_component(&el_name) == v2.is_component(&el_name), "U-tag-frame: is_component must not depend on earlier fragments in the module");
     std::mem::forget((el_name, v1, v2));
 }
-macro_rules! tagf { ($($n:ident: $k:expr;)*) => { $(#[kani::proof] #[kani::unwind(8)] #[kani::stub(std::ptr::drop_in_place, no_drop)] #[kani::stub(core::ptr::drop_glue, no_glue)] #[kani::stub(alloc::fmt::format, fmt_marker)] fn $n() { tag_frame::<$k>() })* } }
+macro_rules! tagf { ($($n:ident: $k:expr;)*) => { $(#[kani::proof] #[kani::unwind(8)] #[kani::stub(std::ptr::drop_in_place, no_drop)] #[kani::stub(core::ptr::drop_glue, no_glue)] #[kani::stub(std::vec::Vec::extend_from_slice, extend_from_slice_model)] #[kani::stub(alloc::fmt::format, fmt_marker)] fn $n() { tag_frame::<$k>() })* } }
 tagf! { tagframe_alias_text: 1; tagframe_foo: 2; tagframe_div: 3; }
 
 // member and namespaced tags (C01 member expression; C07 no `ns:name` token leaves the function)
-#[kani::proof] #[kani::unwind(8)] #[kani::stub(std::ptr::drop_in_place, no_drop)] #[kani::stub(core::ptr::drop_glue, no_glue)] #[kani::stub(alloc::fmt::format, fmt_marker)]
+#[kani::proof] #[kani::unwind(8)] #[kani::stub(std::ptr::drop_in_place, no_drop)] #[kani::stub(core::ptr::drop_glue, no_glue)] #[kani::stub(std::vec::Vec::extend_from_slice, extend_from_slice_model)] #[kani::stub(alloc::fmt::format, fmt_marker)]
 fn tag_member() {
     let mut v = visitor(any_options());
     let el_name = JSXElementName::JSXMemberExpr(JSXMemberExpr { span: sp(1), obj: JSXObject::Ident(ident("ns", local_ctxt())), prop: idn("Comp") });
@@ -94,7 +94,7 @@ fn tag_member() {
     assert!(matches!(&tag, Expr::JSXMember(m) if &*m.prop.sym == "Comp" && matches!(&m.obj, JSXObject::Ident(o) if &*o.sym == "ns")), "U-tag: a member-expression tag denotes that member value");
     std::mem::forget((tag, el_name, v));
 }
-#[kani::proof] #[kani::unwind(8)] #[kani::stub(std::ptr::drop_in_place, no_drop)] #[kani::stub(core::ptr::drop_glue, no_glue)] #[kani::stub(alloc::fmt::format, fmt_marker)]
+#[kani::proof] #[kani::unwind(8)] #[kani::stub(std::ptr::drop_in_place, no_drop)] #[kani::stub(core::ptr::drop_glue, no_glue)] #[kani::stub(std::vec::Vec::extend_from_slice, extend_from_slice_model)] #[kani::stub(alloc::fmt::format, fmt_marker)]
 fn tag_namespaced_no_jsx_leak() {
     let mut v = visitor(any_options());
     let el_name = JSXElementName::JSXNamespacedName(JSXNamespacedName { span: sp(1), ns: idn("a"), name: idn("b") });
@@ -112,11 +112,11 @@ fn member_builtin<const WHICH: u8>() {
     assert!(!v.is_component(&el_name), "U-tag: `X.Fragment` / `X.KeepAlive` are not component hosts (children stay a plain list)");
     std::mem::forget((el_name, v));
 }
-macro_rules! mb_h { ($($n:ident: $k:expr;)*) => { $(#[kani::proof] #[kani::unwind(8)] #[kani::stub(std::ptr::drop_in_place, no_drop)] #[kani::stub(core::ptr::drop_glue, no_glue)] #[kani::stub(alloc::fmt::format, fmt_marker)] fn $n() { member_builtin::<$k>() })* } }
+macro_rules! mb_h { ($($n:ident: $k:expr;)*) => { $(#[kani::proof] #[kani::unwind(8)] #[kani::stub(std::ptr::drop_in_place, no_drop)] #[kani::stub(core::ptr::drop_glue, no_glue)] #[kani::stub(std::vec::Vec::extend_from_slice, extend_from_slice_model)] #[kani::stub(alloc::fmt::format, fmt_marker)] fn $n() { member_builtin::<$k>() })* } }
 mb_h! { tag_member_fragment: 0; tag_member_keepalive: 1; tag_member_fragment_alias: 2; }
 
 // C10: the same tag NAME with two different bindings in one module: each occurrence is classified by ITS binding
-#[kani::proof] #[kani::unwind(4)] #[kani::stub(std::ptr::drop_in_place, no_drop)] #[kani::stub(core::ptr::drop_glue, no_glue)] #[kani::stub(alloc::fmt::format, fmt_marker)]
+#[kani::proof] #[kani::unwind(4)] #[kani::stub(std::ptr::drop_in_place, no_drop)] #[kani::stub(core::ptr::drop_glue, no_glue)] #[kani::stub(std::vec::Vec::extend_from_slice, extend_from_slice_model)] #[kani::stub(alloc::fmt::format, fmt_marker)]
 fn tag_same_name_two_bindings() {
     let mut v = visitor(any_options());
     let first_unresolved: bool = kani::any();
